@@ -23,6 +23,8 @@ def sz(ctx, quick, thorough):
 
 def _run(name, mon, payloads, rule, samples=None):
     t0 = time.time()
+    # every fifth payload runs on a USED parser (monimpl._dirty): a few earlier calls of the nasty kinds first
+    payloads = [dict(p, dirty=i) if i % 5 == 2 and isinstance(p, dict) and 'dirty' not in p else p for i, p in enumerate(payloads)]
     lines = [f'MON {mon} ' + json.dumps(p) for p in payloads]
     outs = corr.run_impl(lines)
     failing, nontriv, crashed, first_err = [], set(), 0, None
@@ -549,6 +551,15 @@ def monitor_c11(ctx):
 
 def monitor_c17(ctx):
     pays = _hist_payloads(ctx, 'mon-c17', sz(ctx, 250, 4000), ['dict', 'lru2', 'evict', 'ddict', 'readthrough'])
+    # the same text several times (literals that are mutated, lambdas called repeatedly), for two mappings: a retained tree is
+    # evaluated again and again and must answer as a newly parsed one does
+    for t in ['pop([10, 20, 30])', '[3, 1, 2] | pop', 'push([1], 2)', 'mk = n => [1, 2]; push(mk(0), 3); mk(0)', 'x = [1, 2]; x.push(3); x',
+              'pop(["alice", "bob", "carol"], i)', 'd = {"a": [1]}; push(d["a"], 2); d', 'remove([1, 2, 3], 2)', 'insert([1], 0, 5)', '[[1], [2]][0] | pop',
+              'f = k => (0 if k < 1 else f(k - 1) + k); f(3)', 'map([[1], [2]], v => push(v, 0))', 'r = reversed([1, 2, 3]); push(r, 4)',
+              'insert({"k": [5]}["k"], 0, 6)', 'sorted([3, 1, 2]) | pop', '(w => push([7], w))(i)', 'del {"a": 1, "b": 2}["a"]', 'l = [[0]]; l[0][0] += 1; l']:
+        for kind in ('dict', 'lru2', 'readthrough'):
+            pays.append({'heap': '(U (M 1 (S:69 D:0:0:0:c)) (M 2 (S:69 D:0:1:0:c)))', 'cache': kind,
+                         'calls': [['eval', t, 0, 1000, 7], ['eval', t, 1, 1000, 7], ['eval', t, 0, 1000, 7], ['parse', t], ['eval', t, 0, 1000, 7]]})
     return _run('c17', 'c17', pays, 'a cached (dict / LRU(2) / always-evicting) and an uncached SqParser driven in lock-step over the same history; '
                 'attribute-level snapshot of every cached tree around each call')
 
